@@ -119,30 +119,56 @@ def run(report, index, tier):
                          'token and lines after it are not counted'
                          if ch in ES5_LINE_TERMINATORS else ''),
                      where='lexers/es5.py:t_ignore')
-    markers = need_const(mod, 'DIVISION_SYNTAX_MARKERS',
-                         types=(frozenset, set))
-    r2.check(set(markers) == {'LINE_TERMINATOR', 'LINE_COMMENT',
-                              'BLOCK_COMMENT'},
-             'dropped token types', 'DIVISION_SYNTAX_MARKERS',
-             'the token types _token drops are %s' % sorted(markers),
-             where='lexers/es5.py')
-    tokfn = need_function(mod, '_token', 'Lexer')
-    cont = [n for n in ast.walk(tokfn) if isinstance(n, ast.Continue)]
-    guarded = True
-    for c in cont:
-        # every `continue` (token dropped) is under a test on
-        # DIVISION_SYNTAX_MARKERS / LINE_TERMINATOR
-        found = False
-        for n in ast.walk(tokfn):
-            if isinstance(n, ast.If) and any(c is x for x in ast.walk(n)):
-                t = ast.unparse(n.test)
-                if 'DIVISION_SYNTAX_MARKERS' in t or 'LINE_TERMINATOR' in t:
-                    found = True
-        guarded = guarded and found
-    r2.check(guarded and bool(cont), 'tokens dropped only for markers',
-             'Lexer._token', 'a token is dropped (continue) outside a test '
-             'for comment / line-terminator types',
-             where='lexers/es5.py:_token')
+    # which tokens of the underlying lexer reach the parser: Lexer.token
+    # is evaluated from its source on a stream [T, ID, <end>] for every
+    # token type T; only comments and line terminators may be withheld
+    methods = mod.class_methods('Lexer')
+    tokfn = need_function(mod, 'token', 'Lexer')
+    droppable = {'LINE_TERMINATOR', 'LINE_COMMENT', 'BLOCK_COMMENT'}
+    for ttype in sorted(set(lm.tokens) | droppable):
+        for flags in ((False, False), (True, False)):
+            stream = [Obj('LexToken', type=ttype, value='t', lineno=1,
+                          lexpos=0, colno=1),
+                      Obj('LexToken', type='ID', value='b', lineno=1,
+                          lexpos=2, colno=3), None]
+            it = iter(stream)
+            lexer = Obj('Lexer', next_tokens=[], hidden_tokens=[],
+                        with_comments=flags[0], yield_comments=flags[1],
+                        cur_token=None, prev_token=None,
+                        cur_token_real=None, valid_prev_token=None,
+                        token_stack=[[None, []]],
+                        lexer=Obj('PlyLexer', lexdata='ab', lexpos=0))
+            lexer._get_update_token = ('pyfunc', lambda it=it: next(it))
+            got = []
+            try:
+                for _ in range(3):
+                    ev = Evaluator(mod, 'Lexer', methods, {})
+                    ret, _ys = ev.call(tokfn, [], self_obj=lexer)
+                    if ret is None:
+                        break
+                    got.append(ret)
+            except Raised as e:
+                got = 'raises %s' % e.text
+            want = [t for t in stream[:2] if t.type not in droppable]
+            ok = isinstance(got, list) and len(got) == len(want) and all(
+                g is w for g, w in zip(got, want))
+            r2.check(ok, 'token stream %s%s' % (
+                ttype, ' (with comments)' if flags[0] else ''),
+                'Lexer.token() on the raw stream [%s, ID]' % ttype,
+                'returns %s; every token except comments and line '
+                'terminators must reach the parser, in order' % (
+                    [t.type for t in got] if isinstance(got, list) else got),
+                where='lexers/es5.py:Lexer.token / _token')
+            if ttype in ('LINE_COMMENT', 'BLOCK_COMMENT') and flags[0] \
+                    and isinstance(got, list) and got:
+                hid = got[0].hidden_tokens if got[0].has(
+                    'hidden_tokens') else []
+                r2.check(len(hid) == 1 and hid[0] is stream[0],
+                         'comment carried by the next token (%s)' % ttype,
+                         'Lexer.token() with comment capture on [%s, ID]'
+                         % ttype, 'the comment is not handed to the next '
+                         'token exactly once (hidden_tokens=%r)' % (hid,),
+                         where='lexers/es5.py:Lexer.token')
     for name, ref in (('LINE_TERMINATOR', REF_LINE_TERMINATOR_SEQ),
                       ('LINE_COMMENT', REF_LINE_COMMENT),
                       ('BLOCK_COMMENT', REF_BLOCK_COMMENT)):
@@ -266,14 +292,19 @@ def line_index_rule(report, index, rid, LA=None):
     for value, lexpos, want_idx, want_lines in cases:
         lexer = Obj('Lexer', newline_idx=[0],
                     lexer=Obj('PlyLexer', lineno=1))
-        tok = Obj('LexToken', value=value, lexpos=lexpos)
+        ttype = ('BLOCK_COMMENT' if value.startswith('/*') else
+                 'STRING' if value[:1] in '"\'' else
+                 'LINE_TERMINATOR' if value.strip('\r\n\u2028\u2029') == ''
+                 else 'ID')
+        tok = Obj('LexToken', value=value, lexpos=lexpos, type=ttype,
+                  lineno=1, colno=1)
         ev = Evaluator(mod, 'Lexer', methods, {
             'zip': zip, 'iter': iter, 'len': len})
         try:
             ev.call(upd, [tok], self_obj=lexer)
             got = (lexer.newline_idx[1:], lexer.lexer.lineno - 1)
-        except (Raised, AnalysisError) as e:
-            got = 'error: %s' % e
+        except Raised as e:
+            got = 'raises %s' % e.text
         r4.check(got == (want_idx, want_lines),
                  '_update_newline_idx(%r@%d)' % (value, lexpos),
                  '_update_newline_idx(token value=%r lexpos=%d)' % (
@@ -310,8 +341,8 @@ def line_index_rule(report, index, rid, LA=None):
             got = (ret is tok, lexer.newline_idx[1:],
                    lexer.lexer.lineno - 1,
                    tok.colno if tok.has('colno') else None)
-        except (Raised, AnalysisError) as e:
-            got = 'error: %s' % e
+        except Raised as e:
+            got = 'raises %s' % e.text
         r4.check(got == (True, [6], 1, 5),
                  'get_lexer_token(%s spanning a line)' % ttype,
                  'get_lexer_token() for a %s token containing a line '
